@@ -294,6 +294,8 @@ class Search:
 
     def rawswitch_signature(self, cfg, path, k):
         """C05-N11 is ONLY: the same history with `reset_integrator()` after every integrator assignment continues bit-for-bit"""
+        if cfg["integrator"] != "trace":
+            return None          # narrowed after ef4d691: only TRACE leaves live-only state behind a raw switch
         cfg2 = dict(cfg)
         cfg2["pre"] = [op.replace("switchraw:", "switch:") for op in cfg.get("pre", [])]
         cfg2["post"] = [op.replace("switchraw:", "switch:") for op in cfg.get("post", [])]
@@ -429,7 +431,7 @@ def _twin_one(self, cfg, path, k=9):
             same = R.first_difference(self.semantic(R.persisted_view(u1)), self.semantic(R.persisted_view(u2))) is None
         except Exception:
             same = False
-        c.violation("C05-N11:integrator-switched-without-reset" if same else "save-changes-live-trajectory:" + cfg["integrator"],
+        c.violation("C05-N11:integrator-switched-without-reset" if (same and cfg["integrator"] == "trace") else "save-changes-live-trajectory:" + cfg["integrator"],
                     "saved vs never-saved twin differ in a history that switches integrators without reset: %s, cfg %s" % (d, cfg_key(cfg)),
                     {"cfg": cfg, "path": path, "steps": k})
         return
@@ -1083,7 +1085,7 @@ def run_cases(c, S, cases, nproc=8, chunk=12, budget=45):
                     (W.twin_one if (len(sub[0]) > 3 and sub[0][3] == "twin") else W.one)(cfg2, path, k)
                     shutil.rmtree(W.tmp, ignore_errors=True)
                     return True
-                if forked(rerun, None)[0]:
+                if cfg["integrator"] == "trace" and forked(rerun, None)[0]:
                     key = "C05-N11:integrator-switched-without-reset"
             if uses_tree(cfg):
                 # C05-N5 is ONLY: the source holds a NaN-flagged / out-of-box particle at the save point (F17 state)
